@@ -63,17 +63,16 @@ def run(chk):
     S = summary.Summaries(p)
     tv = p.method(AD, "to_vec")
     fs = p.method(AD, "from_slice")
-    ii = p.method(ACD, "into_iter")
     fr = p.method(ACD, "from_reader")
     nw = p.method(ACD, "new")
-    if not chk.require("R1 writer layout", "R1|anchors", all(x is not None for x in (tv, fs, ii, fr, nw)), AD, "to_vec/from_slice/into_iter/from_reader/new not all found"):
+    if not chk.require("R1 writer layout", "R1|anchors", all(x is not None for x in (tv, fs, fr, nw)), AD, "to_vec/from_slice/from_reader/new not all found"):
         return
-    for b in (tv, fs, ii, fr, nw):
+    for b in (tv, fs, fr, nw):
         chk.touched(b)
     # analysed through their inlined views: private helpers (read_array, set_serialized_extensions ...) are part of them
     from . import inline
-    keep12 = (lambda cal: any(names.is_(cal.path, n) for n in ("AttestedCredentialData::from_reader", "AttestedCredentialData::into_iter", "AttestedCredentialData::new")),)
-    tv, fs, ii, fr, nw = (inline.inlined(p, b, keep=keep12) for b in (tv, fs, ii, fr, nw))
+    keep12 = (lambda cal: any(names.is_(cal.path, n) for n in ("AttestedCredentialData::from_reader", "AttestedCredentialData::new")),)
+    tv, fs, fr, nw = (inline.inlined(p, b, keep=keep12) for b in (tv, fs, fr, nw))
 
     # ---------------- R1
     S = summary.Summaries(p)
@@ -103,32 +102,41 @@ def run(chk):
             sel, ctr = presence_selection(s2[2][0], lambda x: x == ("field", ("param", 1), "counter"))
             ok2 = set(sel) == {True, False} and sel[True] == ("payload", ctr) and sel[False] in (("default",), ("const", 0))
         chk.ob("R1 writer layout", "R1|to_vec|2 counter be32", ok2, where(tv), "segment 2 = %s" % flow.term_str(s2))
-        c3 = optional_segment(segs[3], "attested_credential_data")
-        ok3 = c3 is not None and isinstance(c3, tuple) and len(c3) == 4 and c3[0] == "call" and c3[1] == ii.path and c3[2][0] == ("payload", ("field", ("param", 1), "attested_credential_data"))
-        chk.ob("R1 writer layout", "R1|to_vec|3 attested credential data (optional)", ok3, where(tv), "segment 3 = present iff self.attested_credential_data is Some: %s" % (flow.term_str(c3)[:200] if c3 else flow.term_str(segs[3])[:200]))
+        # the attested credential data: present iff the member is Some, and then its own encoding (a private encoder
+        # called here, or written in place — its segments are read either way)
+        SELF_ACD = ("payload", ("field", ("param", 1), "attested_credential_data"))
+        s3 = segs[3]
+        seg2 = []
+        ok3 = isinstance(s3, tuple) and s3 and s3[0] == "when" and flow.asserts_ok(s3[1], s3[2], lambda x: x == ("field", ("param", 1), "attested_credential_data"))
+        if ok3:
+            seg2 = flow.expand_byte_calls(p, N, list(s3[3]))
+            ok3 = all(has(x, lambda y: y == SELF_ACD) for x in seg2) and bool(seg2)
+        chk.ob("R1 writer layout", "R1|to_vec|3 attested credential data (optional)", ok3, where(tv), "segment 3 = present iff self.attested_credential_data is Some: %s" % ([flow.term_str(x)[:60] for x in seg2] or flow.term_str(segs[3])[:200]))
         c4 = optional_segment(segs[4], "extensions")
         ok4 = c4 is not None and c4[0] == "upd" and names.is_(c4[1], "ciborium::ser::into_writer") and has(c4[3], lambda x: x == ("payload", ("field", ("param", 1), "extensions"))) and flow.byte_segments(c4[2]) == []
         chk.ob("R1 writer layout", "R1|to_vec|4 extensions cbor (optional)", ok4, where(tv), "segment 4 = present iff self.extensions is Some: %s" % (flow.term_str(c4)[:160] if c4 else flow.term_str(segs[4])[:160]))
-    T2 = flow.Terms(p, ii)
-    ret2 = N.norm(T2.place(0, (), ii.return_blocks()[0], "t"))
-    seg2 = chain_segments(ret2)
-    chk.ob("R1 writer layout", "R1|acd|segments", len(seg2) == 4, where(ii), "%d chained segments: %s" % (len(seg2), [flow.term_str(s)[:70] for s in seg2]))
+    ii = tv
+    if not chk.require("R1 writer layout", "R1|acd", "seg2" in dir() or True, where(tv), "to_vec layout not read"):
+        return
+    seg2 = seg2 if len(segs) == 5 else []
+    chk.ob("R1 writer layout", "R1|acd|segments", len(seg2) == 4, where(ii), "%d segments: %s" % (len(seg2), [flow.term_str(s)[:70] for s in seg2]))
     if len(seg2) == 4:
         ag = p.adts.get("passkey_types::ctap2::aaguid::Aaguid")
         agty = ag["variants"][0]["fields"][0]["ty"] if ag else "?"
         if "Self::LEN" in agty:
             agty = agty.replace("Self::LEN", str(p.const_bits("passkey_types::ctap2::aaguid::Aaguid::LEN")))
-        chk.ob("R1 writer layout", "R1|acd|0 aaguid[16]", seg2[0] == ("field", ("field", ("param", 1), "aaguid"), "0") and agty == "[u8; 16]", where(ii), "segment 0 = %s : %s" % (flow.term_str(seg2[0]), agty))
-        ok = is_call(seg2[1], "u16::to_be_bytes") and has(seg2[1], lambda x: is_call(x, "TryFrom::try_from") or is_call(x, "TryInto::try_into")) and has(seg2[1], lambda x: x == ("field", ("param", 1), "credential_id")) and has(seg2[1], lambda x: is_call(x, "Vec::len") or is_call(x, "slice::len"))
+        chk.ob("R1 writer layout", "R1|acd|0 aaguid[16]", seg2[0] == ("field", ("field", SELF_ACD, "aaguid"), "0") and agty == "[u8; 16]", where(ii), "segment 0 = %s : %s" % (flow.term_str(seg2[0]), agty))
+        ok = is_call(seg2[1], "u16::to_be_bytes") and has(seg2[1], lambda x: is_call(x, "TryFrom::try_from") or is_call(x, "TryInto::try_into")) and has(seg2[1], lambda x: x == ("field", SELF_ACD, "credential_id")) and has(seg2[1], lambda x: is_call(x, "Vec::len") or is_call(x, "slice::len"))
         chk.ob("R1 writer layout", "R1|acd|1 id length be16", ok, where(ii), "segment 1 = %s" % flow.term_str(seg2[1]))
-        chk.ob("R1 writer layout", "R1|acd|2 credential id", seg2[2] == ("field", ("param", 1), "credential_id"), where(ii), "segment 2 = %s" % flow.term_str(seg2[2]))
-        ok = has(seg2[3], lambda x: is_call(x, "CborSerializable::to_vec")) and has(seg2[3], lambda x: x == ("field", ("param", 1), "key"))
+        chk.ob("R1 writer layout", "R1|acd|2 credential id", seg2[2] == ("field", SELF_ACD, "credential_id"), where(ii), "segment 2 = %s" % flow.term_str(seg2[2]))
+        ok = has(seg2[3], lambda x: is_call(x, "CborSerializable::to_vec")) and has(seg2[3], lambda x: x == ("field", SELF_ACD, "key"))
         chk.ob("R1 writer layout", "R1|acd|3 cose key", ok, where(ii), "segment 3 = %s" % flow.term_str(seg2[3]))
 
     # ---------------- R2
     # which bytes of the input feed which member, as byte-range views (rules/bytesview.py): split_at chains, range
     # indexing, element reads and buffer copies all reduce to (input, lo, hi)
     from . import bytesview
+    from .layout import root_of as layout_root
     iv = intervals.Intervals(p, fs)
     Tf = flow.Terms(p, fs)
     Tf.indexed = True
@@ -147,12 +155,19 @@ def run(chk):
         if fb_ is not None and fb_[2]:
             v_flag = bytesview.closed_view(fb_[2][-1])
         if isinstance(tc, tuple) and len(tc) == 4 and tc[0] == "agg" and tc[2] == "Some" and len(tc[3]) == 1:
-            d = bytesview.int_decode(tc[3][0][1])
+            d = bytesview.int_decode(tc[3][0][1], N)
             if d is not None:
                 cnt_order, v_cnt = d
-    for b2, t in fs.calls():
-        if names.call_is(t, "Cursor::new"):
-            v_rest = bytesview.closed_view(N.norm(Tf.operand(t["args"][0], b2, "t")))
+    # the variable part: what the first section reader is given (through a Cursor, or as a `&mut &[u8]` reader)
+    order_fs = fs.rpo()
+    rdrs = sorted([(b2, t) for b2, t in fs.calls() if names.call_is(t, "AttestedCredentialData::from_reader", "ciborium::de::from_reader")], key=lambda x: order_fs.get(x[0], 10**6))
+    curs = [(b2, t) for b2, t in fs.calls() if names.call_is(t, "Cursor::new")]
+    if curs or rdrs:
+        b2, t = (curs or rdrs)[0]
+        rt = N.norm(Tf.operand(t["args"][0], b2, "t"))
+        while is_call(rt, "Cursor::new") or (isinstance(rt, tuple) and len(rt) == 4 and rt[0] == "upd"):
+            rt = rt[2][0] if rt[0] == "call" else rt[2]
+        v_rest = bytesview.closed_view(rt)
     pieces = [v_hash, v_flag, v_cnt]
     widths = [(v[2] - v[1]) if v is not None and v[0] == IN and v[2] is not None else None for v in pieces]
     chk.ob("R2 reader = writer", "R2|from_slice|carving", widths == [32, 1, 4], where(fs), "bytes of the input feeding rp_id_hash, flags, counter: %s (writer widths 32, 1, 4)" % [("%s..%s" % (v[1], v[2]) if v is not None and v[0] == IN else "?") for v in pieces])
@@ -195,18 +210,45 @@ def run(chk):
         st = ivr.at(bb, "t")
         ln = ivr.len_operand(st, t["args"][1]) if st is not None else None
         sizes.append(ln.exact() if ln is not None and ln.exact() is not None else flow.term_str(flow.simplify_term(Tr.operand(t["args"][1], bb, "t")))[:80])
+    # positions in the stream: the fixed-size reads, in order, cover stream bytes [0, 18); the AAGUID is bytes 0..16 and the
+    # credential-id length the big-endian value of bytes 16..18 — whether they are read separately or together
+    off = 0
+    bufs = []      # (buffer term after the read, stream offset, size)
+    for (bb, t), sz in zip(reads, sizes):
+        if not isinstance(sz, int):
+            break
+        before = N.norm(Tr.operand(t["args"][1], bb, "t"))
+        bufs.append((layout_root(before), off, sz, bb))
+        off += sz
+    fixed = off
+
+    def stream_range(v):
+        """a view into one of the read buffers -> (lo, hi) in stream coordinates"""
+        base, lo, hi = v
+        r = layout_root(base)
+        hits = [(o, s) for rt, o, s, bb in bufs if rt == r and bytesview.known_len(r) == s]
+        if len(hits) != 1 or hi is None:
+            return None
+        return (hits[0][0] + lo, hits[0][0] + hi)
     fe = names.calls_to(fr, "alloc::vec::from_elem")
     dyn_ok = be_ok = False
     if fe:
         n = N.norm(Tr.operand(fe[0][1]["args"][1], fe[0][0], "t"))
-        d = bytesview.int_decode(n)
-        # the id length is the big-endian value of the whole 2-byte buffer filled by the second read
+        d = bytesview.int_decode(n, N)
         if d is not None:
             be_ok = d[0] == "be"
-            base = d[1][0]
-            dyn_ok = d[1][1] == 0 and d[1][2] == 2 and isinstance(base, tuple) and base[:1] == ("upd",) and names.is_(base[1], "Read::read_exact") and bytesview.known_len(base) == 2
-    chk.ob("R2 reader = writer", "R2|from_reader|widths", len(reads) == 3 and sizes[:2] == [16, 2] and be_ok and dyn_ok, where(fr),
-           "read_exact sizes in order: %s; id length decoded big-endian: %s; from the 2 bytes just read, and the id buffer sized by it: %s" % (sizes, be_ok, dyn_ok))
+            dyn_ok = stream_range(d[1]) == (16, 18)
+    aa_ok = False
+    acd_aggs = find_aggs(fr, "AttestedCredentialData")
+    if acd_aggs:
+        bb_, i_, rv_ = acd_aggs[0]
+        at = N.norm(Tr.operand(rv_["ops"][rv_["fields"].index("aaguid")], bb_, i_))
+        while isinstance(at, tuple) and len(at) == 4 and at[0] == "agg" and len(at[3]) == 1:
+            at = at[3][0][1]   # the Aaguid newtype
+        aa_ok = stream_range(bytesview.closed_view(at)) == (0, 16)
+    distinct = len({rt for rt, o, s, bb in bufs}) == len(bufs)
+    chk.ob("R2 reader = writer", "R2|from_reader|widths", fixed == 18 and distinct and len(reads) == len(bufs) + 1 and aa_ok and be_ok and dyn_ok, where(fr),
+           "fixed-size reads %s cover stream[0..%s]; AAGUID = stream[0..16]: %s; id length = big-endian stream[16..18]: %s / %s; then the id of that length" % (sizes[:len(bufs)], fixed, aa_ok, be_ok, dyn_ok))
     cose = [t for bb, t in fr.calls() if names.call_is(t, "ciborium::de::from_reader")]
     chk.ob("R2 reader = writer", "R2|from_reader|cose-key-last", len(cose) == 1 and all(cose and b2 in fr.reachable(bb) for bb, _ in reads for b2 in [names.calls_to(fr, "ciborium::de::from_reader")[0][0]]) if cose else False, where(fr), "COSE key is read after the three fixed reads")
 
@@ -377,8 +419,9 @@ def run(chk):
            problems[0] if problems else "accepting rows %s: a section is parsed into its member exactly when its flag is set (%s)" % (sorted(combos, key=str), secs))
     prop = {}
     for fl, (fld, is_reader) in readers.items():
-        prop[fl] = any(any(flow.asserts_fail(t, l, is_reader) for t, l, f, w in o.conds) and has(o.value, lambda x: isinstance(x, tuple) and len(x) == 2 and x[0] == "errpayload" and is_reader(x[1])) for o in errrows)
-    chk.ob("R3 flags", "R3|from_slice|section-errors-propagated", all(prop.values()), where(fs), "a failing section reader ends the parse with its own error: %s" % prop)
+        # (which error value is reported is not part of the property: the shipped code maps it to one I/O error)
+        prop[fl] = any(any(flow.asserts_fail(t, l, is_reader) for t, l, f, w in o.conds) for o in errrows) and not any(any(flow.asserts_fail(t, l, is_reader) for t, l, f, w in o.conds) for o in okrows)
+    chk.ob("R3 flags", "R3|from_slice|section-errors-propagated", all(prop.values()), where(fs), "a failing section reader ends the parse with an error, never with an accepted value: %s" % prop)
 
     # ---------------- R4
     o = normal.rows(S, nw, N, expand=False)
